@@ -79,6 +79,8 @@ pub struct InCfg {
     pub skip_connect: bool,
     /// "clause|witness" keys of known findings: the monitors keep judging after meeting one of these
     pub known: Vec<String>,
+    /// write back-pressure: number of times the explorer may stop / resume the peer's reading
+    pub bp: u8,
 }
 
 pub const J_C03: u32 = 1;
@@ -98,6 +100,8 @@ pub enum Ev {
     PComplete(u16, u8),
     /// lazy reader: allow one more `read()`
     Read(u16),
+    /// the peer stops (false) / resumes (true) reading what the endpoint writes
+    Win(bool),
 }
 
 pub struct In {
@@ -114,6 +118,8 @@ pub struct In {
     pub app: crate::outbound::App,
     pub app_started: bool,
     pub rgates: std::rc::Rc<Gates>,
+    pub window_open: bool,
+    pub bp_left: u8,
 }
 
 pub fn topic_of(sel: u8) -> &'static str {
@@ -366,6 +372,8 @@ impl Scenario for In {
                 app,
                 app_started: false,
                 rgates,
+                window_open: true,
+                bp_left: cfg.bp,
                 cfg,
             }
         })
@@ -405,6 +413,9 @@ impl Scenario for In {
         }
         if self.cfg.cork && !self.corked.is_empty() {
             v.push(Ev::Flush);
+        }
+        if self.prologue_left.is_empty() && quiescent && (self.bp_left > 0 || !self.window_open) && !self.conn.done() {
+            v.push(Ev::Win(!self.window_open));
         }
         if self.prologue_left.is_empty() {
             for k in self.conn.gates.waiting() {
@@ -449,6 +460,13 @@ impl Scenario for In {
             Ev::Complete(k, oi) => self.conn.gates.open(k as usize, self.cfg.outcomes[oi as usize]),
             Ev::PComplete(k, oi) => self.conn.pgates.open(k as usize, self.cfg.poutcomes[oi as usize]),
             Ev::Read(_) => {}
+            Ev::Win(open) => {
+                if !open {
+                    self.bp_left -= 1;
+                }
+                self.window_open = open;
+                self.conn.window(open);
+            }
         }
     }
 
